@@ -61,6 +61,7 @@ def step (st : St) (line : String) : St × String :=
     match args.mapM String.toNat? with
     | none => (st, "bad-op")
     | some xs =>
+      if xs.any (· ≥ 18446744073709551616) then (st, "bad-op") else
       let key? (i : Nat) : Option Key := st.pool[i]?
       match cmd, xs with
       | "new", n :: rest =>
